@@ -185,6 +185,9 @@ class Seams:
         self.clock = Clock()
         self.ids = IdStub()
         mem.time = self.clock
+        # ... and the wall clock itself, for any other module of the library that reads it (owned: no real time in observations)
+        self.orig_time_time = _time.time
+        _time.time = self.clock.time
         _uuid.uuid4 = self.ids
         import random as _random
 
@@ -204,6 +207,7 @@ class Seams:
 
     def __exit__(self, *a):
         self.mem.time = self.orig_time
+        _time.time = self.orig_time_time
         _uuid.uuid4 = self.orig_uuid
         self.random.setstate(self.orig_random_state)
         return False
@@ -1479,7 +1483,7 @@ def run_other_store(ctl: explorer.Ctl, cfg: Dict[str, Any]) -> Dict[str, Any]:
             clock.now = T0 + 10.5
             removed = store.cleanup_expired(10)
             alive = store.get_session(sid) is not None
-            used = wire is not None and when > 0.5
+            used = wire is not None and (10.5 - when) <= 10      # idle at the sweep = 10.5 - when; expired iff idle > 10
             if used and not alive:
                 bad("active-session-expired", f"the session was used {10.5 - when} s ago and cleanup_expired(10) removed it "
                                               f"({removed} removed)")
@@ -1503,7 +1507,7 @@ def run_other_store(ctl: explorer.Ctl, cfg: Dict[str, Any]) -> Dict[str, Any]:
 
 def other_store_configs() -> List[Dict[str, Any]]:
     return [{"store": s_, "msg": m, "when": w} for s_ in range(len(OTHER_STORES)) for m in range(len(STORE_MESSAGES))
-            for w in (0.5, 5.0, 9.5, 10.0)]
+            for w in (0.25, 0.5, 5.0, 9.5, 10.0)]
 
 
 def run(tier: str, only=None) -> core.Result:
@@ -1606,7 +1610,7 @@ def run(tier: str, only=None) -> core.Result:
         "other records and a later handler's initialize as they were.  One sweep over 1 / 19 / 20 / 21 / 30 / 100 / 1000 expired and 2 "
         "fresh sessions removes exactly the expired ones - also with the library's logging at DEBUG.  Other stores behind the handler (stock, a subclass returning deep "
         "copies, an independent BaseSessionManager keeping rows as dicts): ping / unknown method / notification / second initialize / "
-        "request with params carrying the session id 0.5 / 5 / 9.5 / 10 s after initialize, then cleanup 10.5 s after it: the store's "
+        "request with params carrying the session id 0.25 / 0.5 / 5 / 9.5 / 10 s after initialize, then cleanup 10.5 s after it: the store's "
         "record is refreshed and the session survives exactly when it was used within the limit.  Child interpreters started with -O "
         "and -OO run a sequential search to depth 3 (thorough 4) plus the mass-expiry and near-miss batteries"
     )
